@@ -16,6 +16,7 @@ def cfg0 : Cfg where
     | 3 => some .externalOwned | 4 => some .externalOwned | _ => none
   onChain := fun g c => match g, c with
     | 0, 0 => true | 1, 0 => true | 2, _ => true | 3, 0 => true | 4, 0 => true | 4, 1 => true | _, _ => false
+  envBound := true
 
 /-- `m0fx`: FX locked in the eth module account at genesis (given on the `reset` line) -/
 def ledger0 (m0fx : Nat) : Ledger where
@@ -68,7 +69,8 @@ def showState (s : State) : String :=
   let nz := fun (pre : String) (f : Nat → Nat) => (List.range nGroups).filterMap fun g =>
     if f g == 0 then none else some s!"{pre}{g}={f g}"
   let ghost := nz "D.g" s.deposited ++ nz "W.g" s.withdrawn ++
-    (List.range nChains).flatMap fun c => nz s!"xl{c}." (s.chains c).extLast
+    ((List.range nChains).flatMap fun c => nz s!"xl{c}." (s.chains c).extLast) ++
+    ((List.range nChains).flatMap fun c => nz s!"xs{c}." (fun g => if locks cfg0 g then (s.chains c).ext g else 0))
   " ".intercalate (bals ++ sups ++ chains ++ ghost)
 
 def parseTokens (w : String) : Option (List (Nat × Nat)) :=
@@ -105,7 +107,10 @@ def parseOp (ws : List String) : Option Op :=
 
 def step' (s : State) (line : String) : State × String :=
   match words line with
-  | "reset" :: rest => (init (ledger0 ((rest.head?.bind String.toNat?).getD 0)), "ok")
+  | "reset" :: rest =>
+    let m0fx := (rest.head?.bind String.toNat?).getD 0
+    -- the FX locked in the eth module account at genesis is what circulates on Ethereum
+    (initE (ledger0 m0fx) (fun c g => if c = 0 ∧ g = 0 then m0fx else 0), "ok")
   | ws =>
     match parseOp ws with
     | none => (s, "bad-op")
